@@ -412,9 +412,19 @@ func consumingLoopOK(prog *Program, fn *ssa.Function, header *ssa.BasicBlock, ma
 			return false, "", fmt.Sprintf("the loop over the keys can end early at %s with a non-error result: which key decides depends on Go's random map order", prog.pos(sm.Ret.Pos()))
 		}
 	}
-	// effects: only insertion into a map made in this function, under the iteration's own key
+	// effects: only insertion into a map made in this function, under the iteration's own key; what has been
+	// accumulated so far is never read inside the loop (an outcome that depends on "how many were kept before this
+	// entry" depends on the visiting order)
 	for b := range lb {
 		for _, ins := range b.Instrs {
+			if c, ok := ins.(*ssa.Call); ok {
+				callee := c.Call.StaticCallee()
+				if callee != nil && callee.Pkg != nil && callee.Pkg.Pkg.Path() == "reflect" && callee.Signature.Recv() != nil && callee.Name() != "SetMapIndex" && len(c.Call.Args) > 0 {
+					if mk, ok := c.Call.Args[0].(*ssa.Call); ok && (isReflectFunc(mk.Call.StaticCallee(), "MakeMap") || isReflectFunc(mk.Call.StaticCallee(), "MakeSlice")) {
+						return false, "", "the loop over the keys reads the container it is filling (" + callee.Name() + " at " + prog.pos(c.Pos()) + "): its decisions depend on which entries were visited before"
+					}
+				}
+			}
 			switch x := ins.(type) {
 			case *ssa.Store:
 				if _, isAlloc := x.Addr.(*ssa.Alloc); !isAlloc {
